@@ -126,7 +126,7 @@ SK_T = S("search-keep", "keep", 400, 4)
 PROPS["C14"] = {
     "module": "RCE.Props.C14chess",
     "theorems": ["RCE.Props.C14.info_depths", "RCE.Props.C14.depth_limit_complete", "RCE.Props.C14.pv_legal", "RCE.Props.C14.pv_nonempty", "RCE.Props.C14.info_score_present", "RCE.Props.C14.chess_pv_legal_by_the_rules", "RCE.Props.C14.chess_pv_nonempty"],
-    "streams": {"quick": [SP_Q, S("search-budget", "budget", 16, 2, extra=["--step", 7, "--maxcases", 40]), S("search-game", "game", 48, 4, extra=["--plies", 8]), SR_Q, dict(S("search-deepend", "deepend", 320, 8), driver="search:0")],
+    "streams": {"quick": [SP_Q, S("search-budget", "budget", 16, 2, extra=["--step", 7, "--maxcases", 40]), S("search-game", "game", 48, 4, extra=["--plies", 8]), SR_Q, dict(S("search-deepend", "deepend", 320, 8), driver="search:0"), dict(S("search-fifty", "fifty", 64, 3), driver="search:0")],
                 "thorough": [SP_T, dict(S("search-deepend", "deepend", 3200, 8), driver="search:0"), S("search-budget", "budget", 64, 3, extra=["--step", 11, "--maxcases", 300]), SK_T, S("search-game", "game", 400, 5, extra=["--plies", 12]), SR_T,
                              {"name": "search-benchkeep", "stream": "search", "driver": "search:0", "args": ["--mode", "file", "--cases", "work/bench_keep_cases.txt"]}]},
     "eval_key": "cases", "distinct_key": "distinct_cases",
@@ -313,3 +313,10 @@ for _p in ("C02", "C04"):
     PROPS[_p]["streams"]["thorough"] = PROPS[_p]["streams"]["thorough"] + [SP_T, SD_T]
     PROPS[_p]["rule"] += ("; plus search streams (plain depth <= 3 against the model; the seed positions to depth 5 and sparse endgames to depth 8 judged on the engine's own output): "
                           "after every uninterrupted search the key of the search's own board must equal the root's and the from-scratch key")
+
+# deep searches under node budgets on roots whose first generated move is illegal (engine output only: one legal bestmove)
+SDB_Q = dict(S("search-deepbudget", "deepbudget", 48, 7), driver="search:0")
+SDB_T = dict(S("search-deepbudget", "deepbudget", 400, 8), driver="search:0")
+for _p in ("C09", "C14"):
+    PROPS[_p]["streams"]["quick"] = PROPS[_p]["streams"]["quick"] + [SDB_Q]
+    PROPS[_p]["streams"]["thorough"] = PROPS[_p]["streams"]["thorough"] + [SDB_T]
